@@ -509,8 +509,10 @@ class SegmentWriter(IndexWriter):
         self.writelock = None
         if _lk:
             self.writelock = ix.lock("WRITELOCK")
-            if not try_for(self.writelock.acquire, timeout=timeout,
-                           delay=delay):
+            # Poll without blocking: RamStorage hands out threading.Lock
+            # objects, whose acquire() blocks by default
+            if not try_for(lambda: self.writelock.acquire(False),
+                           timeout=timeout, delay=delay):
                 raise LockError
 
         if codec is None:
